@@ -234,6 +234,12 @@ func cmdCheck(args []string) int {
 				return 2
 			}
 			cfg.defaults()
+			if cfg.BudgetS == 0 {
+				cfg.BudgetS = 300
+				if *tier == "thorough" {
+					cfg.BudgetS = 3600
+				}
+			}
 			if *qlog != "" {
 				f, _ := os.Create(*qlog)
 				defer f.Close()
